@@ -878,10 +878,29 @@ func (e *env) authorizedKeysGrammar() {
 	if !e.skg.present {
 		return
 	}
+	// only keys that this ssh-keygen loads at all take part (an OpenSSH build may have dropped a
+	// key type or raised its minimum RSA size; that is not x/crypto's business)
+	var probe []string
+	for _, lk := range lkeys {
+		probe = append(probe, lk.k.ref.Type+" "+kf.B64Encode(lk.k.blob)+" probe")
+	}
+	loads, err := e.skg.acceptFile(probe)
+	if err != nil {
+		c.Set("ssh_keygen_lines_note", err.Error())
+		return
+	}
+	usable := map[string]bool{}
+	for i, lk := range lkeys {
+		if loads[i] {
+			usable[lk.k.ref.Type] = true
+		} else {
+			c.Set("ssh_keygen_does_not_load_"+lk.k.ref.Type, true)
+		}
+	}
 	var sel []int
 	var texts []string
 	for i, l := range lines {
-		if l.keygen {
+		if l.keygen && usable[l.keyType] {
 			sel = append(sel, i)
 			texts = append(texts, l.text)
 		}
